@@ -1,7 +1,7 @@
 SPECIFICATION Spec
 CONSTANTS
-  Steps = {64, 256, 512, 1024}
-  MaxSubs = {2, 3}
+  Steps = {2048}
+  MaxSubs = {2}
   MinSub = 128
   Delta = 640
   Unit = 64
